@@ -287,6 +287,18 @@ func (w *Walker) walkSelection(parentDef *ast.Definition, it ast.Selection) {
 		if def != nil && !w.validatedFragmentSpreads[def.Name] {
 			// prevent infinite recursion
 			w.validatedFragmentSpreads[def.Name] = true
+			// variables used in the directives of the fragment definition are variables of
+			// the operation that spreads the fragment, just like those in its selection set
+			for _, dir := range def.Directives {
+				dirDef := w.Schema.Directives[dir.Name]
+				for _, arg := range dir.Arguments {
+					var argDef *ast.ArgumentDefinition
+					if dirDef != nil {
+						argDef = dirDef.Arguments.ForName(arg.Name)
+					}
+					w.walkArgument(argDef, arg)
+				}
+			}
 			w.walkSelectionSet(nextParentDef, def.SelectionSet)
 		}
 
